@@ -110,6 +110,17 @@ Theorem c14_omitted_never_crashes : forall env c nc ids,
   valid_grouping c ids -> forallb (wfb env) c = true -> decompose env c nc ids None <> Crashed.
 Proof. exact omitted_never_crashes. Qed.
 
+(* out-of-range choices made on the gate itself: the basis_id setter (run by both constructors) accepts exactly the
+   ids 0 <= m < #maps, refuses every other int (negative ones included), and so establishes the invariant wfb *)
+Theorem c14_setter : forall env b m,
+  (setter env b m = Ok tt <-> (0 <= m < Z.of_nat (length (nth b env [])))%Z) /\
+  (setter env b m <> Ok tt -> setter env b m = Refused).
+Proof. exact setter_spec. Qed.
+
+Theorem c14_setter_invariant : forall env b h m l qs cs,
+  setter env b (Z.of_nat m) = Ok tt <-> wfb env (mkI (Qpd1 b h (Some m) l) qs cs) = true.
+Proof. exact setter_wfb. Qed.
+
 (* ---------------- non-vacuity ---------------- *)
 (* B0: a two-qubit basis with empty sequences on either side and markers; B1: a one-qubit basis whose map 0 is empty *)
 Definition exB0 : basis :=
@@ -162,6 +173,10 @@ Example c14_ex_omitted_ok :
   decompose exEnv c 1 exIds None = decompose exEnv exC 1 exIds (Some exMs).
 Proof. split; [apply groupingb_sound|split; [|split]]; vm_compute; reflexivity. Qed.
 
+Example c14_ex_setter :
+  setter exEnv 1 2%Z = Ok tt /\ setter exEnv 1 3%Z = Refused /\ setter exEnv 1 (-1)%Z = Refused /\ setter exEnv 0 (-4)%Z = Refused.
+Proof. vm_compute. repeat split; reflexivity. Qed.
+
 (* the refusal classes are inhabited *)
 Example c14_ex_refusals :
   decompose exEnv exC 1 [[4; 6; 1]; [2]] (Some [0; 1]%Z) = Refused /\        (* three elements *)
@@ -189,6 +204,8 @@ Print Assumptions c14_refuse_maps_length.
 Print Assumptions c14_refuse_map_out_of_range.
 Print Assumptions c14_omitted.
 Print Assumptions c14_omitted_never_crashes.
+Print Assumptions c14_setter.
+Print Assumptions c14_setter_invariant.
 
 (* ---------------- tie to the source (regenerated facts) ---------------- *)
 From CKT Require Import Extracted.Facts.
